@@ -16,7 +16,10 @@ import (
 	"github.com/alibaba/RedisShake/pkg/rdb/digest"
 	utils "github.com/alibaba/RedisShake/redis-shake/common"
 
+	"github.com/alibaba/RedisShake/pkg/simrt"
+
 	"verifsim/core"
+	"verifsim/env"
 	"verifsim/gen"
 	rc "verifsim/refcodec"
 )
@@ -63,6 +66,7 @@ func decodeDumpSafe(p []byte) (err error) {
 
 func runC11(c *core.Ctx) *core.Violation {
 	t := c.T
+	env.CaptureLog("info", 1<<16) // the loader logs every aux field
 	alts := 3
 	if c.Thorough() {
 		alts = 255
@@ -133,6 +137,11 @@ func runC11(c *core.Ctx) *core.Violation {
 	if err != nil {
 		return core.Violate("intact-rdb-rejected", "", "intact RDB (%d bytes, version %d) rejected: %v", len(file), version, err)
 	}
+	// Mutated length fields ask for up to 4 GiB. The file is at most 4 KiB and LZF expands 4 KiB to well under 1 MiB,
+	// so no request above 4 MiB can be satisfied from it: the simulated allocator refuses those outright (the real
+	// allocator would grant the pages and the read would then hit EOF — the same rejection, minutes later).
+	defer func(old int) { simrt.AllocLimit = old }(simrt.AllocLimit)
+	simrt.AllocLimit = 4 << 20
 	mut := append([]byte(nil), file...)
 	mutants := 0
 	if len(file) <= 4096 {
@@ -156,8 +165,8 @@ func runC11(c *core.Ctx) *core.Violation {
 				t0 := time.Now()
 				_, err, panicked := loadAll(mut)
 				if time.Since(t0) > 3*time.Millisecond {
-					// a corrupted length made the parser allocate hundreds of megabytes (the simulated
-					// allocator caps single allocations at 600 MiB): hand the pages back right away
+					// a corrupted length made the parser allocate megabytes (the simulated
+					// allocator caps single allocations at 4 MiB here): hand the pages back right away
 					debug.FreeOSMemory()
 					c.Probe("large_allocation_mutant")
 				}
@@ -265,7 +274,7 @@ func init() {
 	core.Register(&core.Prop{
 		ID:         "C11",
 		Run:        runC11,
-		QuickRuns:  220,
+		QuickRuns:  3000,
 		PerProcess: 50,
 		Level:      "fault_enumeration",
 		Rule: "one evaluation = one generated artefact set: (a) a byte string pushed through the three CRC-64 implementations in tape-chosen chunkings and compared with a bitwise reference; " +
